@@ -57,7 +57,7 @@ SIG_STALE = "C35/transaction-snapshot/keeps-states-that-left-the-session"
 
 
 class MObj:
-    __slots__ = ("st", "sess", "marked", "was_deleted", "id", "visited", "rb_edge", "dirty")
+    __slots__ = ("st", "sess", "marked", "was_deleted", "id", "visited", "rb_edge", "dirty", "gen")
 
     def __init__(self, ident):
         self.st = "T"
@@ -67,6 +67,7 @@ class MObj:
         self.id = ident
         self.visited = {"T"}
         self.rb_edge = False
+        self.gen = 0  # bumped every time the object leaves a session through expunge / expunge_all / close / make_transient
         self.dirty = True  # may carry unflushed attribute changes (constructor / harness assignments / merge target)
 
     def snap(self):
@@ -74,12 +75,13 @@ class MObj:
 
 
 class Frame:
-    __slots__ = ("new", "deleted", "rows")
+    __slots__ = ("new", "deleted", "rows", "gen")
 
     def __init__(self, rows):
         self.new = []  # object indexes INSERTed within this frame
         self.deleted = []  # object indexes DELETEd within this frame
         self.rows = set(rows)  # database rows when the frame began
+        self.gen = {}  # object index -> its generation when it was recorded in this frame
 
 
 class MSess:
@@ -134,6 +136,7 @@ class Model:
         for i in pend:
             self.move(i, "S")
             fr.new.append(i)
+            fr.gen[i] = self.objs[i].gen
         for i in self.marked(s):
             o = self.objs[i]
             self.move(i, "D")
@@ -142,6 +145,7 @@ class Model:
             ms.rows.discard(o.id)
             ms.idmap.pop(o.id, None)
             fr.deleted.append(i)
+            fr.gen[i] = o.gen
         for o in self.objs:
             if o.sess == s and o.st == "S":
                 o.dirty = False
@@ -170,18 +174,21 @@ class Model:
             if i in ms.frames[-1].deleted:
                 ms.frames[-1].deleted.remove(i)
         o.sess = None
+        o.gen += 1
 
     def stale_on_rollback(self, s, nframes):
         ms = self.sess[s]
         for fr in ms.frames[len(ms.frames) - nframes:]:
             for i in fr.new:
                 o = self.objs[i]
-                if o.sess != s or o.st not in "PSD":
-                    return True
+                if o.sess != s or o.st not in "PSD" or o.gen != fr.gen.get(i):
+                    return True  # left the session (possibly came back since: the record still refers to the earlier membership)
             for i in fr.deleted:
                 o = self.objs[i]
-                if o.sess == s and o.st == "D":
+                if o.sess == s and o.st == "D" and o.gen == fr.gen.get(i):
                     continue
+                if o.sess == s and o.gen != fr.gen.get(i):
+                    return True
                 # only a detached state that still carries the was-deleted flag is ignored by the restore; a transient one (key gone)
                 # raises, one attached elsewhere raises, and a detached one whose flag was reset (make_transient +
                 # make_transient_to_detached) is silently re-attached as persistent
@@ -194,7 +201,7 @@ class Model:
         for fr in ms.frames:
             for i in fr.deleted:
                 o = self.objs[i]
-                if not (o.sess == s and o.st == "D"):
+                if not (o.sess == s and o.st == "D" and o.gen == fr.gen.get(i)):
                     return True
         return False
 
@@ -571,6 +578,7 @@ def check(case, ctx):
                             fr = ms.frames.pop()
                             ms.frames[-1].new += fr.new
                             ms.frames[-1].deleted += fr.deleted
+                            ms.frames[-1].gen.update(fr.gen)
                             run = lambda: sess.get_nested_transaction().commit()  # noqa: E731
 
                 elif op == "expunge":
@@ -710,6 +718,9 @@ def check(case, ctx):
 
                         elif key in model.pending_ids(s):
                             skip = "merge-would-duplicate-pending"
+                        elif "id" not in r.__dict__:
+                            # expired source: the pending copy would get a database-generated key that can collide with a harness key
+                            skip = "merge-copy-without-pk"
                         else:
 
                             def run(key=key, s=s, sess=sess):
